@@ -1208,6 +1208,37 @@ def gen_descr_ast(r):
     return order, idterms, chterms
 
 
+def gen_big_descr_ast(r):
+    """a description whose parts outgrow the initial sizes of the description reader's containers:
+    dozens of declared terminals (some with very long names), dozens of rules, one rule with a
+    right-hand side and a translation list of 64-200 elements"""
+    T = r.choice([25, 60, 150]); N = r.choice([12, 40, 100]); L = r.choice([64, 65, 70, 200])
+    used = set(); idterms = []
+    for i in range(T):
+        name = 'K%d' % i + ('q' * r.choice([90, 300]) if i % 23 == 5 else '')
+        code = None
+        if r.random() < 0.3:
+            code = r.choice([300, 1000, 5000]) + i
+            while code in used: code += 1
+            used.add(code)
+        idterms.append((name, code))
+    tn = [n for n, _ in idterms]
+    rules = []
+    long_rhs = [tn[j % T] for j in range(L)]
+    rules.append(('S', [(['N0'], 'num', None, None, [0], False),
+                        (long_rhs, 'anode', 'big', r.choice([None, 3]), list(range(L)) if r.random() < 0.7 else list(range(L - 1, -1, -1)), True)]))
+    for i in range(N):
+        nxt = 'N%d' % (i + 1)
+        alts = [([tn[i % T]], 'anode', 'l%d' % i, None, [0], True)]
+        if i + 1 < N: alts.insert(0, ([tn[(i * 7 + 1) % T], nxt], 'anode', 'c%d' % i, r.choice([None, 0, 2]), [0, 1], True))
+        if i % 9 == 4: alts.append((["'%s'" % 'abc'[i % 3], tn[i % T]], 'num', None, None, [1], False))
+        rules.append(('N%d' % i, alts))
+    cut = r.randint(0, T)
+    order = [('terms', idterms[:cut])] + [('rule', x) for x in rules]
+    order.insert(r.randint(1, len(order)), ('terms', idterms[cut:]))
+    return order, idterms, []
+
+
 def render_descr(r, order):
     def w(): return r.choice(WS) if r.random() < 0.5 else ' '
     out = []
@@ -1331,7 +1362,7 @@ def gen_descr_cases(seed, count):
     r = random.Random(seed)
     cases = []
     for i in range(count):
-        order, idterms, chterms = gen_descr_ast(r)
+        order, idterms, chterms = gen_big_descr_ast(r) if r.random() < 0.03 else gen_descr_ast(r)
         text = render_descr(r, order)
         strict = r.randint(0, 1)
         terms, rules = descr_twin(order)
